@@ -170,7 +170,7 @@ Definition k_sb : key := [[115]; [98]].
 Definition ex_ops : list op :=
   [ OStage 0 (WDir [(k_a, [120; 13; 10; 121]); (k_sb, [120; 10; 121])]);
     OSaveIndex 1 [[[115]]] [(k_sb, [65], H_exec Md5D2U [65])];
-    OTransfer 0 1 [H_exec Md5D2U [120; 10; 121]] false;
+    OTransfer 0 1 [H_exec Md5D2U [120; 10; 121]] false false;
     OAdd 2 [66] (H_exec Sha256 [66]);
     OMigrate 1 2 [] true ].
 
@@ -251,3 +251,66 @@ Proof.
   exists [(Local, Sha256)], ex_sha_dir. split; [apply C01_init|].
   apply viol_b_sound. vm_compute. reflexivity.
 Qed.
+
+(* ------------------------------------------------------------------ verifying transfers *)
+Lemma stem_nodot l r : Forall (fun c => c <> 46) l -> stem (l ++ r) = match r with 46 :: _ => l | _ => l ++ stem r end.
+Proof.
+  induction 1 as [|c l Hc _ IH]; simpl.
+  - destruct r as [|d r']; [reflexivity|]. simpl. destruct (d =? 46) eqn:E.
+    + apply N.eqb_eq in E. subst d. reflexivity.
+    + destruct d as [|p]; [reflexivity|]. do 6 (destruct p as [p|p|]; try reflexivity); discriminate E.
+  - assert (E : (c =? 46) = false) by (apply N.eqb_neq; exact Hc). rewrite E, IH.
+    destruct r as [|d r']; [reflexivity|]. destruct d as [|p]; [reflexivity|].
+    do 6 (destruct p as [p|p|]; try reflexivity).
+Qed.
+
+Lemma hex_nodot l : Forall (fun c => is_lower_hex c = true) l -> Forall (fun c => c <> 46) l.
+Proof. intros Hf. eapply Forall_impl; [|exact Hf]. intros c Hc ->. discriminate Hc. Qed.
+
+Lemma H_exec_hex a b : Forall (fun c => is_lower_hex c = true) (H_exec a b).
+Proof. destruct a; simpl; [apply md5_hex_is_hex|apply md5_hex_is_hex|apply sha256_hex_is_hex]. Qed.
+
+Lemma stem_H_exec a b : stem (H_exec a b) = H_exec a b.
+Proof.
+  pose proof (stem_nodot (H_exec a b) [] (hex_nodot _ (H_exec_hex a b))) as E.
+  rewrite app_nil_r in E. rewrite E. simpl. now rewrite app_nil_r.
+Qed.
+
+(* in a state satisfying the invariant every store has its stems right, so
+   C01_verifying_transfer_partial applies to every destination of a reachable state - and goes on
+   applying to it after objects of OTHER stores have rotted *)
+Lemma InvE_StemP_exec E st j : InvE H_exec E st -> StemP H_exec st j [].
+Proof.
+  intros HI s k o Hs Ho. left. destruct (HI j s k o Hs Ho) as [Hn _].
+  unfold named_ok in Hn. unfold stem_ok. rewrite stem_H_exec.
+  destruct (is_dir_oid k).
+  - destruct Hn as [-> _]. pose proof (stem_nodot (H_exec (s_alg s) (o_bytes o)) dot_dir (hex_nodot _ (H_exec_hex _ _))) as E0.
+    simpl in E0. now rewrite E0.
+  - rewrite Hn. now rewrite stem_H_exec.
+Qed.
+
+(* example: a remote object rots; the verifying fetch lets in neither it nor the directory that
+   lists it, the clean file arrives *)
+Definition ex_rot_cfg : list (cls * alg) := [(Base, Md5); (Local, Md5)].
+Definition ex_rot_dir : oid := dir_oid_of H_exec (listing_of Md5 [(k_a, H_exec Md5 [65]); (k_sb, H_exec Md5 [66])]).
+Definition ex_rot_ops : list op :=
+  [ OStage 0 (WDir [(k_a, [65]); (k_sb, [66])]);
+    ORot 0 (H_exec Md5 [66]) [114];
+    OTransfer 0 1 [ex_rot_dir] false true ].
+Example ex_rot_result :
+  map (fun s => length (s_objs s)) (st_stores (run H_exec (init_state ex_rot_cfg) ex_rot_ops)) = [3; 1]%nat
+  /\ viol_b H_exec (run H_exec (init_state ex_rot_cfg) ex_rot_ops) = true      (* the rotten source *)
+  /\ store_viol_b H_exec (nth 1 (st_stores (run H_exec (init_state ex_rot_cfg) ex_rot_ops))
+                             {| s_cls := Base; s_alg := Md5; s_objs := [] |}) = false.
+Proof. vm_compute. repeat split; reflexivity. Qed.
+(* the same transfer without verify lets the rotten object in *)
+Example ex_rot_noverify :
+  store_viol_b H_exec (nth 1 (st_stores (run H_exec (init_state ex_rot_cfg)
+                          [ OStage 0 (WDir [(k_a, [65]); (k_sb, [66])]); ORot 0 (H_exec Md5 [66]) [114];
+                            OTransfer 0 1 [ex_rot_dir] false false ]))
+                             {| s_cls := Base; s_alg := Md5; s_objs := [] |}) = true.
+Proof. vm_compute. reflexivity. Qed.
+
+Theorem C01_verifying_transfer_exec E st src dst ids sh :
+  InvE H_exec E st -> StemP H_exec (step H_exec st (OTransfer src dst ids sh true)) dst [].
+Proof. intros HI. apply C01_verifying_transfer_partial. now apply InvE_StemP_exec with E. Qed.
